@@ -606,8 +606,52 @@ func globalDerived(fn *ssa.Function, inModule func(*ssa.Global) bool) map[ssa.Va
 // globalDerivedWith: as globalDerived; the result of a call of a function in retDerived (a module function that hands
 // out memory reachable from a package-level variable: `return table[:n]`) is derived from that variable too.
 func globalDerivedWith(fn *ssa.Function, inModule func(*ssa.Global) bool, retDerived map[*ssa.Function]*ssa.Global) map[ssa.Value]*ssa.Global {
+	d, _ := globalDerivedHolds(fn, inModule, retDerived)
+	return d
+}
+
+// carriesRefs: a record or array value (not itself a reference) that contains references: copying it copies the
+// references, not what they point to (`l := blankPadded` shares blankPadded.pad's array).
+func carriesRefs(t types.Type) bool {
+	switch u := t.Underlying().(type) {
+	case *types.Struct:
+		for i := 0; i < u.NumFields(); i++ {
+			if isRefType(u.Field(i).Type()) || carriesRefs(u.Field(i).Type()) {
+				return true
+			}
+		}
+	case *types.Array:
+		return isRefType(u.Elem()) || carriesRefs(u.Elem())
+	}
+	return false
+}
+
+// globalDerivedHolds: d as globalDerivedWith; holds are addresses of *local* memory (a local variable, a field or element
+// of one) into which references derived from a package-level variable were stored – a copy of a package-level record
+// that has a slice, map or pointer field. Writing that local memory is harmless; writing through a reference loaded
+// from it writes the package-level variable's memory.
+func globalDerivedHolds(fn *ssa.Function, inModule func(*ssa.Global) bool, retDerived map[*ssa.Function]*ssa.Global) (map[ssa.Value]*ssa.Global, map[ssa.Value]*ssa.Global) {
 	d := map[ssa.Value]*ssa.Global{}
+	carrier := map[ssa.Value]*ssa.Global{}
+	holds := map[ssa.Value]*ssa.Global{}
 	changed := true
+	localRoot := func(v ssa.Value) ssa.Value {
+		for {
+			switch x := v.(type) {
+			case *ssa.Alloc:
+				return x
+			case *ssa.FieldAddr:
+				v = x.X
+			case *ssa.IndexAddr:
+				if _, isPtr := x.X.Type().Underlying().(*types.Pointer); !isPtr {
+					return nil
+				}
+				v = x.X
+			default:
+				return nil
+			}
+		}
+	}
 	for changed {
 		changed = false
 		set := func(v ssa.Value, g *ssa.Global) {
@@ -616,17 +660,56 @@ func globalDerivedWith(fn *ssa.Function, inModule func(*ssa.Global) bool, retDer
 				changed = true
 			}
 		}
+		setIn := func(m map[ssa.Value]*ssa.Global, v ssa.Value, g *ssa.Global) {
+			if _, ok := m[v]; !ok && g != nil {
+				m[v] = g
+				changed = true
+			}
+		}
 		for _, b := range fn.Blocks {
 			for _, in := range b.Instrs {
 				switch in := in.(type) {
+				case *ssa.Store:
+					g, ok := d[in.Val]
+					if !ok {
+						g, ok = carrier[in.Val]
+					}
+					if ok {
+						if _, already := d[in.Addr]; !already {
+							if root := localRoot(in.Addr); root != nil {
+								setIn(holds, root, g)
+								setIn(holds, in.Addr, g)
+							}
+						}
+					}
+				case *ssa.Field:
+					if g, ok := carrier[in.X]; ok {
+						if isRefType(in.Type()) {
+							set(in, g)
+						} else if carriesRefs(in.Type()) {
+							setIn(carrier, in, g)
+						}
+					}
 				case *ssa.UnOp:
 					if in.Op.String() == "*" {
 						if g, ok := in.X.(*ssa.Global); ok && inModule(g) {
 							if isRefType(in.Type()) {
 								set(in, g)
+							} else if carriesRefs(in.Type()) {
+								setIn(carrier, in, g)
 							}
-						} else if g, ok := d[in.X]; ok && isRefType(in.Type()) {
-							set(in, g)
+						} else if g, ok := d[in.X]; ok {
+							if isRefType(in.Type()) {
+								set(in, g)
+							} else if carriesRefs(in.Type()) {
+								setIn(carrier, in, g)
+							}
+						} else if g, ok := holds[in.X]; ok {
+							if isRefType(in.Type()) {
+								set(in, g)
+							} else if carriesRefs(in.Type()) {
+								setIn(carrier, in, g)
+							}
 						}
 					}
 				case *ssa.FieldAddr:
@@ -634,12 +717,16 @@ func globalDerivedWith(fn *ssa.Function, inModule func(*ssa.Global) bool, retDer
 						set(in, g)
 					} else if g, ok := d[in.X]; ok {
 						set(in, g)
+					} else if g, ok := holds[in.X]; ok {
+						setIn(holds, in, g)
 					}
 				case *ssa.IndexAddr:
 					if g, ok := in.X.(*ssa.Global); ok && inModule(g) {
 						set(in, g)
 					} else if g, ok := d[in.X]; ok {
 						set(in, g)
+					} else if g, ok := holds[in.X]; ok {
+						setIn(holds, in, g)
 					}
 				case *ssa.Slice:
 					if g, ok := in.X.(*ssa.Global); ok && inModule(g) {
@@ -675,7 +762,7 @@ func globalDerivedWith(fn *ssa.Function, inModule func(*ssa.Global) bool, retDer
 			}
 		}
 	}
-	return d
+	return d, holds
 }
 
 // returnsGlobalDerived: the module functions some result of which points into memory reachable from a package-level
@@ -1039,16 +1126,29 @@ func (a *Analysis) onceAssignment(e *Event) bool {
 
 // paramDerived: the values of fn that point into memory reachable from its parameter number pi.
 func paramDerived(fn *ssa.Function, pi int) map[ssa.Value]bool {
+	d, _ := paramDerivedDeep(fn, pi)
+	return d
+}
+
+// paramDerivedDeep: d – the values that point into memory reachable from parameter pi; deep – those of them reached
+// through at least one reference *loaded* from that memory (p.field[i], *p.ptr: memory the parameter's target refers
+// to, not the target itself).
+func paramDerivedDeep(fn *ssa.Function, pi int) (map[ssa.Value]bool, map[ssa.Value]bool) {
 	d := map[ssa.Value]bool{}
+	deep := map[ssa.Value]bool{}
 	if pi >= len(fn.Params) {
-		return d
+		return d, deep
 	}
 	d[fn.Params[pi]] = true
 	for changed := true; changed; {
 		changed = false
-		set := func(v ssa.Value) {
+		set := func(v ssa.Value, from ssa.Value, loaded bool) {
 			if !d[v] {
 				d[v] = true
+				changed = true
+			}
+			if (loaded || deep[from]) && !deep[v] {
+				deep[v] = true
 				changed = true
 			}
 		}
@@ -1057,109 +1157,195 @@ func paramDerived(fn *ssa.Function, pi int) map[ssa.Value]bool {
 				switch in := in.(type) {
 				case *ssa.UnOp:
 					if in.Op.String() == "*" && d[in.X] && isRefType(in.Type()) {
-						set(in)
+						set(in, in.X, true)
 					}
 				case *ssa.FieldAddr:
 					if d[in.X] {
-						set(in)
+						set(in, in.X, false)
 					}
 				case *ssa.IndexAddr:
 					if d[in.X] {
-						set(in)
+						set(in, in.X, false)
 					}
 				case *ssa.Slice:
 					if d[in.X] {
-						set(in)
+						set(in, in.X, false)
 					}
 				case *ssa.Phi:
 					for _, e := range in.Edges {
 						if d[e] {
-							set(in)
+							set(in, e, false)
 						}
 					}
 				case *ssa.ChangeType:
 					if d[in.X] {
-						set(in)
+						set(in, in.X, false)
 					}
 				case *ssa.Lookup:
 					if d[in.X] && isRefType(in.Type()) {
-						set(in)
+						set(in, in.X, true)
 					}
 				case *ssa.Extract:
 					if d[in.Tuple] && isRefType(in.Type()) {
-						set(in)
+						set(in, in.Tuple, false)
 					}
 				}
 			}
 		}
 	}
-	return d
+	return d, deep
 }
 
 // writesThroughParams: for every module function, the parameters through which it (or a module function it hands the
 // memory on to) writes: stores, map updates, delete/clear/copy into memory reachable from the parameter.
 func (a *Analysis) writesThroughParams() map[*ssa.Function]map[int]bool {
+	out, _ := a.writesThroughParamsDeep()
+	return out
+}
+
+type calleeRef struct {
+	fn  *ssa.Function
+	off int // index of the callee parameter that receives argument 0 of the call (1 for methods called through an interface)
+}
+
+// possibleCallees: the static callee of a call, or – for a call of a function value or through an interface – the
+// module functions the VTA call graph resolves the site to.
+func (a *Analysis) possibleCallees(c ssa.CallInstruction) []calleeRef {
+	cc := c.Common()
+	if callee := cc.StaticCallee(); callee != nil {
+		return []calleeRef{{callee, 0}}
+	}
+	if _, isBuiltin := cc.Value.(*ssa.Builtin); isBuiltin {
+		return nil
+	}
+	// dynamic: the callees the VTA call graph gives this site (the function values and receiver types that can flow
+	// there), module functions only
+	cg := a.vtaGraph()
+	fn := c.Parent()
+	var out []calleeRef
+	off := 0
+	if cc.IsInvoke() {
+		off = 1
+	}
+	if n := cg.Nodes[fn]; n != nil {
+		seen := map[*ssa.Function]bool{}
+		for _, e := range n.Out {
+			if e.Site != c || e.Callee == nil || e.Callee.Func == nil {
+				continue
+			}
+			cf := e.Callee.Func
+			if seen[cf] || !a.P.InModule(cf) || cf.Blocks == nil {
+				continue
+			}
+			seen[cf] = true
+			out = append(out, calleeRef{cf, off})
+		}
+	}
+	sort.Slice(out, func(i, j int) bool { return out[i].fn.String() < out[j].fn.String() })
+	return out
+}
+
+func (a *Analysis) vtaGraph() *callgraph.Graph {
+	a.dynCalleeOnce.Do(func() {
+		a.vta = vta.CallGraph(a.P.AllFuncs, cha.CallGraph(a.P.Prog))
+	})
+	return a.vta
+}
+
+// writesThroughParamsDeep: any – as writesThroughParams; deep – the parameters through which the function writes memory
+// it reached by loading a reference out of the parameter's target (`l.pad[i] = c` for a parameter l *layout).
+func (a *Analysis) writesThroughParamsDeep() (map[*ssa.Function]map[int]bool, map[*ssa.Function]map[int]bool) {
 	out := map[*ssa.Function]map[int]bool{}
+	outDeep := map[*ssa.Function]map[int]bool{}
 	var fns []*ssa.Function
 	for fn := range a.P.AllFuncs {
 		if a.P.InModule(fn) && fn.Blocks != nil && !a.P.IsTestFile(fn.Pos()) {
 			fns = append(fns, fn)
 		}
 	}
+	sort.Slice(fns, func(i, j int) bool { return fns[i].String() < fns[j].String() })
 	derived := map[*ssa.Function][]map[ssa.Value]bool{}
+	deepOf := map[*ssa.Function][]map[ssa.Value]bool{}
 	for _, fn := range fns {
 		for pi, p := range fn.Params {
-			var d map[ssa.Value]bool
+			var d, dp map[ssa.Value]bool
 			if isRefType(p.Type()) {
-				d = paramDerived(fn, pi)
+				d, dp = paramDerivedDeep(fn, pi)
 			}
 			derived[fn] = append(derived[fn], d)
+			deepOf[fn] = append(deepOf[fn], dp)
 		}
 	}
 	for changed := true; changed; {
 		changed = false
 		for _, fn := range fns {
 			for pi, d := range derived[fn] {
-				if d == nil || out[fn][pi] {
+				if d == nil || (out[fn][pi] && outDeep[fn][pi]) {
 					continue
 				}
-				w := false
+				dp := deepOf[fn][pi]
+				w, wd := false, false
 				for _, b := range fn.Blocks {
 					for _, in := range b.Instrs {
 						switch in := in.(type) {
 						case *ssa.Store:
 							if d[in.Addr] {
 								w = true
+								wd = wd || dp[in.Addr]
 							}
 						case *ssa.MapUpdate:
 							if d[in.Map] {
 								w = true
+								wd = wd || dp[in.Map]
 							}
-						case *ssa.Call:
-							if bi, ok := in.Call.Value.(*ssa.Builtin); ok && (bi.Name() == "delete" || bi.Name() == "clear" || bi.Name() == "copy") && len(in.Call.Args) > 0 && d[in.Call.Args[0]] {
+						}
+						c, isCall := in.(ssa.CallInstruction)
+						if !isCall {
+							continue
+						}
+						if bi, ok := c.Common().Value.(*ssa.Builtin); ok {
+							if (bi.Name() == "delete" || bi.Name() == "clear" || bi.Name() == "copy") && len(c.Common().Args) > 0 && d[c.Common().Args[0]] {
 								w = true
+								// the slice or map handed to the builtin is itself a reference loaded from somewhere: its
+								// elements are one level further than the reference
+								wd = wd || dp[c.Common().Args[0]]
 							}
-							if callee := in.Call.StaticCallee(); callee != nil {
-								for ai, arg := range in.Call.Args {
-									if d[arg] && out[callee][ai] {
-										w = true
-									}
+							continue
+						}
+						for _, cr := range a.possibleCallees(c) {
+							for ai, arg := range c.Common().Args {
+								if !d[arg] {
+									continue
+								}
+								if out[cr.fn][ai+cr.off] {
+									w = true
+									wd = wd || dp[arg]
+								}
+								if outDeep[cr.fn][ai+cr.off] {
+									w, wd = true, true
 								}
 							}
 						}
 					}
 				}
-				if w {
+				if w && !out[fn][pi] {
 					if out[fn] == nil {
 						out[fn] = map[int]bool{}
 					}
 					out[fn][pi] = true
 					changed = true
 				}
+				if wd && !outDeep[fn][pi] {
+					if outDeep[fn] == nil {
+						outDeep[fn] = map[int]bool{}
+					}
+					outDeep[fn][pi] = true
+					changed = true
+				}
 			}
 		}
 	}
-	return out
+	return out, outDeep
 }
 
 func (a *Analysis) computeGlobalFacts() *globalFactsT {
@@ -1178,27 +1364,39 @@ func (a *Analysis) computeGlobalFacts() *globalFactsT {
 	var writes []globalWrite
 	readers := map[*ssa.Global]map[*ssa.Function]bool{}
 	users := map[*ssa.Global]map[*ssa.Function]bool{}
-	wtp := a.writesThroughParams()
+	wtp, wtpDeep := a.writesThroughParamsDeep()
 	retDerived := a.returnsGlobalDerived(inModule)
 	for fn := range a.P.AllFuncs {
 		if !a.P.InModule(fn) || fn.Blocks == nil || a.P.IsTestFile(fn.Pos()) {
 			continue
 		}
-		d := globalDerivedWith(fn, inModule, retDerived)
+		d, holds := globalDerivedHolds(fn, inModule, retDerived)
 		for _, b := range fn.Blocks {
 			for _, in := range b.Instrs {
 				// memory of a package-level variable handed to a function that writes through that parameter (a method on
-				// the variable's address, say)
+				// the variable's address, say); the callee may be a function value or an interface method (every module
+				// function that fits is considered). A local copy of a package-level record handed to a function that
+				// writes through a reference it loads from the copy (`opt(&l)` with `l.pad[i] = c` inside) likewise.
 				if c, ok := in.(ssa.CallInstruction); ok {
-					if callee := c.Common().StaticCallee(); callee != nil && wtp[callee] != nil {
+					for _, cr := range a.possibleCallees(c) {
+						callee := cr.fn
+						if wtp[callee] == nil {
+							continue
+						}
 						for ai, arg := range c.Common().Args {
-							if !wtp[callee][ai] {
-								continue
+							if wtp[callee][ai+cr.off] {
+								if g, isG := arg.(*ssa.Global); isG && inModule(g) {
+									writes = append(writes, globalWrite{g, fn, in, "write through " + callee.Name()})
+									continue
+								} else if g, has := d[arg]; has {
+									writes = append(writes, globalWrite{g, fn, in, "write through " + callee.Name()})
+									continue
+								}
 							}
-							if g, isG := arg.(*ssa.Global); isG && inModule(g) {
-								writes = append(writes, globalWrite{g, fn, in, "write through " + callee.Name()})
-							} else if g, has := d[arg]; has {
-								writes = append(writes, globalWrite{g, fn, in, "write through " + callee.Name()})
+							if wtpDeep[callee][ai+cr.off] {
+								if g, has := holds[arg]; has {
+									writes = append(writes, globalWrite{g, fn, in, "write through " + callee.Name() + " (a copy of the record shares what its fields refer to)"})
+								}
 							}
 						}
 					}
@@ -1333,7 +1531,8 @@ func (a *Analysis) computeGlobalFacts() *globalFactsT {
 		}
 		return true
 	}
-	startupOnly := func(fn *ssa.Function) bool {
+	var startupOnlyRec func(fn *ssa.Function, visiting map[*ssa.Function]bool) bool
+	startupOnlyRec = func(fn *ssa.Function, visiting map[*ssa.Function]bool) bool {
 		if isInitFunc(fn) {
 			return true
 		}
@@ -1345,13 +1544,21 @@ func (a *Analysis) computeGlobalFacts() *globalFactsT {
 			// nobody in the module calls it (an exported registrar kept for applications): not a run-time writer here
 			return fn.Object() != nil && fn.Object().Exported()
 		}
+		if visiting[fn] {
+			return true // a cycle of callers adds no caller of its own
+		}
+		visiting[fn] = true
+		defer delete(visiting, fn)
 		for _, c := range cs {
-			if !isInitFunc(c) {
+			// a caller that is itself start-up only: an initialiser, or a forwarding function (an exported registrar that
+			// hands on to a method of a table object, say) that in turn only start-up code – or nobody – calls
+			if !isInitFunc(c) && !startupOnlyRec(c, visiting) {
 				return false
 			}
 		}
 		return true
 	}
+	startupOnly := func(fn *ssa.Function) bool { return startupOnlyRec(fn, map[*ssa.Function]bool{}) }
 	writersOf := map[*ssa.Global][]globalWrite{}
 	for _, w := range writes {
 		writersOf[w.g] = append(writersOf[w.g], w)
@@ -1457,12 +1664,10 @@ func (a *Analysis) CheckC20(rep *Report, tier string) {
 	// V2: reachability
 	var cg *callgraph.Graph
 	cgKind := "CHA"
-	chaG := cha.CallGraph(a.P.Prog)
-	cg = chaG
 	// (CHA resolves a call of a func() value – e.g. the body handed to a withLock helper – to every function of that
 	// signature in the program, package initialisers included; VTA follows the values that actually flow there)
 	_ = tier
-	cg = vta.CallGraph(a.P.AllFuncs, chaG)
+	cg = a.vtaGraph()
 	cgKind = "VTA"
 	var roots []*ssa.Function
 	for _, ct := range a.U.Types {
